@@ -27,6 +27,9 @@ CHECKS = {
  "C13": dict(technique="bounded exhaustive enumeration of texts x delimiter styles and of template segment sequences, with a differential hole-value oracle on a second VM",
              text="Every text up to 4 (thorough 5) symbols over a 14-symbol alphabet rich in quotes, backslashes, braces, CR/LF/TAB, CJK and 0x1E, in each of the 4 delimiter styles where the documented escapes can spell it, must evaluate to exactly that text. Every template of <=2 (thorough 3) segments over 5 literal texts and 21 hole programs x 2 hole styles x 2 delimiters, all hole/literal/hole shapes and nesting ladders 1..24 must equal the concatenation of the literal texts and the string forms of hole values computed by evaluating each hole program alone, in order, on a second VM; variables must agree.",
              note="Texts longer than the bound / symbols outside the alphabet are not covered; hole value semantics is taken from evaluating the hole alone (differential), with block-ending holes contributing ''.", ref="DESIGN.md §4 C13"),
+ "C03": dict(technique="bounded exhaustive enumeration of <valid program><separator><broken tail> inputs and token strings with a differential re-execution oracle (Matched alone, same prior state, same die answers)",
+             text="Every combination of 100 construct-covering programs x 5 separators x 78 tails that begin like a literal/call/index/block/operator and break off, plus every token string of <=3 tokens, under family-on and family-off configurations: Matched+RestInput must be the input and re-evaluating Matched alone (dice answered identically through VerifRoll) must reproduce value, variables, st callbacks, dice count, detail text and the executed instruction sequence with empty rest.",
+             note="Detail texts containing a dict rendering are compared modulo permutation (Go map order); neutralised 'nop' instructions are ignored in the instruction comparison; pools and tails are finite lists in c03.go.", ref="DESIGN.md §4 C03"),
 }
 PENDING = {}
 def main():
